@@ -107,6 +107,23 @@ func c05Sources() []srcVariant {
 			s := &space.Decl{Pkg: "in", Name: "S" + id, Under: space.St(f("B", tStr), f("Name", tStr), f("N", space.P(space.N(n))))}
 			return s, []*space.Decl{n, m, k, l}
 		}},
+		// embedded struct fields: the field is named like its type; its fields are not promoted into the match
+		srcVariant{"embedded", func(id string) (*space.Decl, []*space.Decl) {
+			n := &space.Decl{Pkg: "in", Name: "E" + id, Under: space.St(f("A", tInt), f("Other", tInt))}
+			s := &space.Decl{Pkg: "in", Name: "S" + id, Under: space.St(space.Field{Name: "E" + id, T: space.N(n), Embedded: true}, f("B", tStr), f("Name", tStr))}
+			return s, []*space.Decl{n}
+		}},
+		srcVariant{"embedded-ptr", func(id string) (*space.Decl, []*space.Decl) {
+			n := &space.Decl{Pkg: "in", Name: "E" + id, Under: space.St(f("A", tInt), f("Other", tInt))}
+			s := &space.Decl{Pkg: "in", Name: "S" + id, Under: space.St(space.Field{Name: "E" + id, T: space.P(space.N(n)), Embedded: true}, f("B", tStr), f("Name", tStr))}
+			return s, []*space.Decl{n}
+		}},
+		srcVariant{"embedded-shadowing-own-field", func(id string) (*space.Decl, []*space.Decl) {
+			// the outer struct has its own A next to the embedded struct's A
+			n := &space.Decl{Pkg: "in", Name: "E" + id, Under: space.St(f("A", tInt))}
+			s := &space.Decl{Pkg: "in", Name: "S" + id, Under: space.St(space.Field{Name: "E" + id, T: space.N(n), Embedded: true}, f("A", tInt), f("B", tStr), f("Name", tStr))}
+			return s, []*space.Decl{n}
+		}},
 		mk("dropped", f("B", tStr), f("Name", tStr)),
 		method("method", false, false),
 		method("method-ptr-recv", true, false),
@@ -167,6 +184,7 @@ var c05Menu = []string{
 	"autoMap N", "autoMap N.M", "autoMap Nope", "autoMap N2",
 	"matchIgnoreCase", "ignoreMissing", "ignoreUnexported",
 	"map Nope A", "map B.X A", "map B A",
+	"autoMap E$ID", "map E$ID.A A", "map E$ID.Other A",
 	"map N.M.K.A A", "map N.M.K.L.A A", "autoMap N.M.K", "autoMap N.M.K.L",
 	"map N.a A", "map N.M.a A", "map N.m.Other A", "map N.Other A",
 	"map . W", "map . A", "ignore A D", "ignore W A", "ignore A B Name", "map N W",
@@ -259,6 +277,13 @@ func c05Build(tier string, shard, nShards int) []*Scenario {
 						continue
 					}
 					id := fmt.Sprintf("F%05d", n)
+					if len(lines) > 0 {
+						ls := make([]string, len(lines))
+						for i, l := range lines {
+							ls[i] = strings.ReplaceAll(l, "$ID", id)
+						}
+						lines = ls
+					}
 					s, sh := sv.build(id)
 					t, th := tv.build(id, s)
 					sc := &Scenario{ID: "Q" + id, PropGen: "C05", PropVal: "C05", Test: "Convert",
